@@ -27,7 +27,7 @@ import (
 	"time"
 
 	"github.com/chrislusf/seaweedfs/weed/filer"
-	_ "github.com/chrislusf/seaweedfs/weed/filer/leveldb2"
+	leveldb2 "github.com/chrislusf/seaweedfs/weed/filer/leveldb2"
 	"github.com/chrislusf/seaweedfs/weed/pb/filer_pb"
 	weed_server "github.com/chrislusf/seaweedfs/weed/server"
 	"github.com/chrislusf/seaweedfs/weed/util"
@@ -44,7 +44,8 @@ const maxIds = 4 // link identities 1..4
 // also sees orphans) and panics when a path nests deeper than depthBomb.
 type vstore struct {
 	filer.FilerStore
-	known map[string]bool
+	known  map[string]bool
+	prefix string // "" for the default store, "/b" for the path-specific store mounted at /b/ (it sees translated paths)
 }
 
 type bomb struct{}
@@ -52,7 +53,7 @@ type bomb struct{}
 func depthOf(p string) int { return strings.Count(p, "/") }
 
 func (s *vstore) note(e *filer.Entry) {
-	p := string(e.FullPath)
+	p := s.prefix + string(e.FullPath)
 	if depthOf(p) > depthBomb {
 		panic(bomb{})
 	}
@@ -69,7 +70,8 @@ func (s *vstore) UpdateEntry(ctx context.Context, e *filer.Entry) error {
 
 var (
 	tr    *hx.Trace
-	st    *vstore
+	st    *vstore // default store
+	st2   *vstore // second leveldb2 store, configured as the path-specific store of location /b/
 	fl    *filer.Filer
 	fsrv  *weed_server.FilerServer
 	ctx   = context.Background()
@@ -79,7 +81,50 @@ var (
 
 // ---- encoding of the tiny value universe
 
-func fid(n int) string { return fmt.Sprintf("%d,%02x%08x", 1+n%3, n+1, 0x5eed0000+n) }
+// fid: the file id string of chunk n as a client sends it. Even n: the canonical spelling (what the master hands out);
+// odd n: a valid non-canonical spelling of the same kind (no leading zero nibble, upper-case cookie) - the store
+// normalises both to the binary Fid
+func fid(n int) string {
+	if n%2 == 1 {
+		return fmt.Sprintf("%d,%x%08X", 1+n%3, n+1, 0x5eed0000+n)
+	}
+	k := fmt.Sprintf("%x", n+1)
+	if len(k)%2 == 1 {
+		k = "0" + k
+	}
+	return fmt.Sprintf("%d,%s%08x", 1+n%3, k, 0x5eed0000+n)
+}
+
+// the store a path lives in, and the path as that store sees it
+func storeFor(p string) (*vstore, util.FullPath) {
+	if strings.HasPrefix(p, "/b/") {
+		return st2, util.FullPath(p[2:])
+	}
+	return st, util.FullPath(p)
+}
+
+// rawFind: what the store holds under the path (no hard-link overlay)
+func rawFind(p string) *filer.Entry {
+	s, q := storeFor(p)
+	e, err := s.FilerStore.FindEntry(ctx, q)
+	if err != nil || e == nil {
+		return nil
+	}
+	e.FullPath = util.FullPath(p)
+	return e
+}
+
+func allKnown() []string {
+	var paths []string
+	for p := range st.known {
+		paths = append(paths, p)
+	}
+	for p := range st2.known {
+		paths = append(paths, p)
+	}
+	sort.Strings(paths)
+	return paths
+}
 func unfid(s string) string {
 	i := strings.Index(s, ",")
 	if i < 0 || len(s) < i+1+8+1 {
@@ -163,15 +208,10 @@ func mkEntry(path, kind string, tag int, chunks string, hl int, cnt int) *filer.
 // ---- observation
 
 func dump() []string {
-	var paths []string
-	for p := range st.known {
-		paths = append(paths, p)
-	}
-	sort.Strings(paths)
 	var T, F, L, K []string
-	for _, p := range paths {
-		raw, err := st.FilerStore.FindEntry(ctx, util.FullPath(p))
-		if err != nil || raw == nil {
+	for _, p := range allKnown() {
+		raw := rawFind(p)
+		if raw == nil {
 			continue
 		}
 		filer_pb.AfterEntryDeserialization(raw.Chunks)
@@ -221,13 +261,16 @@ func dump() []string {
 }
 
 func resetStore() {
-	for p := range st.known {
-		st.FilerStore.DeleteEntry(ctx, util.FullPath(p))
+	for _, p := range allKnown() {
+		s, q := storeFor(p)
+		s.FilerStore.DeleteEntry(ctx, q)
 	}
 	for h := 1; h <= maxIds; h++ {
 		st.FilerStore.KvDelete(ctx, hlKey(h))
+		st2.FilerStore.KvDelete(ctx, hlKey(h))
 	}
 	st.known = map[string]bool{}
+	st2.known = map[string]bool{}
 }
 
 func errTok(err error) string {
@@ -395,6 +438,7 @@ var alphabet = [][]string{
 	{"create", "/d", "f", "7", "FRESH", "0", "0", "0"},
 	{"create", "/a/b", "f", "8", "FRESH", "0", "0", "0"},
 	{"create", "/b", "d", "9", "-", "0", "0", "1"},
+	{"create", "/a/b/b/c", "f", "2", "FRESH", "0", "0", "0"}, // a folder inside a folder of the same name (rename /a/b /a moves it onto its own parent)
 	{"write", "/a/b/c", "3", "APPEND"},
 	{"write", "/d", "4", "FRESH"},
 	{"update", "/a/b/c", "f", "5", "FRESH", "HL", "CNT"},
@@ -430,8 +474,8 @@ var alphabet = [][]string{
 // bytes and never collide); 0 when all are taken
 func unusedId() int {
 	used := map[string]bool{}
-	for p := range st.known {
-		if e, err := st.FilerStore.FindEntry(ctx, util.FullPath(p)); err == nil && e != nil && len(e.HardLinkId) != 0 {
+	for _, p := range allKnown() {
+		if e := rawFind(p); e != nil && len(e.HardLinkId) != 0 {
 			used[hlTok(e.HardLinkId)] = true
 		}
 	}
@@ -515,9 +559,9 @@ func (g *gen) exhaustive(n, part, parts int) {
 
 // current state as the generator sees it (through the public API), for making arguments
 func (g *gen) livePaths() (files, dirs []string) {
-	for p := range st.known {
-		e, err := st.FilerStore.FindEntry(ctx, util.FullPath(p))
-		if err != nil || e == nil {
+	for _, p := range allKnown() {
+		e := rawFind(p)
+		if e == nil {
 			continue
 		}
 		if e.IsDirectory() {
@@ -533,9 +577,9 @@ func (g *gen) livePaths() (files, dirs []string) {
 
 func (g *gen) maxDepthUnder(p string) int {
 	m := depthOf(p)
-	for q := range st.known {
+	for _, q := range allKnown() {
 		if strings.HasPrefix(q, p+"/") {
-			if e, err := st.FilerStore.FindEntry(ctx, util.FullPath(q)); err == nil && e != nil && depthOf(q) > m {
+			if e := rawFind(q); e != nil && depthOf(q) > m {
 				m = depthOf(q)
 			}
 		}
@@ -635,6 +679,23 @@ func (g *gen) randomCase(n int) {
 	}
 }
 
+// wideCase: a folder with more children than one small page, one of the late ones a non-empty sub folder, deleted recursively
+func (g *gen) wideCase() {
+	g.reset()
+	n := 258 + g.r.Intn(5)
+	late := 256 + g.r.Intn(n-256)
+	early := g.r.Intn(20)
+	for i := 0; i < n; i++ {
+		name := fmt.Sprintf("/w/n%03d", i)
+		if i == late || i == early {
+			exec([]string{"create", name + "/x", "f", "3", g.fresh(), "0", "0", "0"})
+		} else {
+			exec([]string{"create", name, "f", "2", "-", "0", "0", "0"})
+		}
+	}
+	exec([]string{"delete", "/w", "1", "0", "1"})
+}
+
 func main() {
 	a := hx.ParseArgs()
 	tr = hx.NewTrace(a.Out)
@@ -665,6 +726,15 @@ func main() {
 	}
 	st = &vstore{FilerStore: inner, known: map[string]bool{}}
 	fl.SetStore(st)
+	// a path-specific filer store (filer.toml: [leveldb2.x] location="/b/"): everything below /b lives in a second
+	// leveldb2; the namespace must behave as with one store
+	inner2 := &leveldb2.LevelDB2Store{}
+	v.Set("leveldb2b.dir", tmp+"/second")
+	if err := inner2.Initialize(v, "leveldb2b."); err != nil {
+		panic(err)
+	}
+	st2 = &vstore{FilerStore: inner2, known: map[string]bool{}, prefix: "/b"}
+	fl.Store.AddPathSpecificStore("/b/", "second", st2)
 	fsrv = weed_server.NewFilerServerVerif(fl)
 	filer.VerifChunkDeleteObserver = func(kind string, ids []string) bool {
 		if kind == "queue" {
@@ -701,6 +771,7 @@ func main() {
 		}
 		g.runSeq(idx)
 	}
+	g.wideCase()
 	// long random histories
 	for i := 0; i < a.N(12); i++ {
 		g.randomCase(300)
